@@ -39,17 +39,22 @@ def is_spilling(opts):
     return mm.startswith("Dedicated_Sram")
 
 
-def compile_bytes(src_bytes, opts, name="net", keep=False):
+def compile_bytes(src_bytes, opts, name="net", keep=False, t1=True):
     """Compile one model with vela.main in this process (call inside a ForkPool child).
-    -> dict(rc, exc, exc_type, exc_site, exc_msg, out, out_bytes|None, summary (dict of csv row)|None, files)."""
+    -> dict(rc, exc, exc_type, exc_site, exc_msg, out, out_bytes|None, summary (dict of csv row)|None, files, t1)."""
     d = tempfile.mkdtemp(prefix="verif-c-")
+    seam = None
     try:
+        if t1:
+            from . import t1seam
+            seam = t1seam.StripeSeam().install()
         src = os.path.join(d, name + ".tflite")
         with open(src, "wb") as f:
             f.write(src_bytes)
         outd = os.path.join(d, "out")
         res = C.vela_main([src, "--output-dir", outd] + subst(opts))
         res.pop("ret", None)
+        res["t1"] = seam.result() if seam is not None else None
         outp = os.path.join(outd, name + "_vela.tflite")
         res["out_bytes"] = open(outp, "rb").read() if os.path.exists(outp) else None
         res["files"] = sorted(os.path.basename(p) for p in glob.glob(os.path.join(outd, "*")))
@@ -60,6 +65,8 @@ def compile_bytes(src_bytes, opts, name="net", keep=False):
                 res["summary"] = rows[-1]
         return res
     finally:
+        if seam is not None:
+            seam.remove()
         if not keep:
             shutil.rmtree(d, ignore_errors=True)
 
@@ -73,10 +80,12 @@ def schedules(seed, n_swarm, extremes):
     return pols, rngs
 
 
-def simulate(out_bytes, acc, seed, n_swarm=4, extremes=False, spilling=False):
+def simulate(out_bytes, acc, seed, n_swarm=4, extremes=False, spilling=False, t1=None):
     """-> dict(viol=[...], stats, plan facts).  Harness errors propagate as exceptions (classified by the caller)."""
+    from . import t1seam
     m = artefact.load(out_bytes)
     plan = runtime.Plan(m, acc, spilling)
+    t1_ok, t1_n = t1seam.attach(plan, t1)
     pols, rngs = schedules(seed, n_swarm, extremes)
     inf = runtime.Inference(plan, pols, rngs).run()
     facts = dict(arena_size=plan.arena_size, arena_touch_max=inf.arena_touch_max, n_ops=len(m.ops), n_npu=len(plan.eops),
@@ -103,6 +112,6 @@ def run_recipe(recipe, opts, seed, n_swarm=4, extremes=False):
     res["status"] = "compiled"
     res["src"] = src
     res["out_bytes"] = cr["out_bytes"]
-    sim = simulate(cr["out_bytes"], acc_of(opts), seed, n_swarm, extremes, is_spilling(opts))
+    sim = simulate(cr["out_bytes"], acc_of(opts), seed, n_swarm, extremes, is_spilling(opts), cr.get("t1"))
     res.update(viol=sim["viol"], stats=sim["stats"], facts=sim["facts"], failing=sim["failing"], model=sim["model"], plan=sim["plan"], dead_stores=sim["dead_stores"])
     return res
